@@ -324,10 +324,14 @@ def run(prop, tier, replay=None):
     if replay is not None:
         return _replay(rep, wd, replay)
     dres = {}
+    import time
+    t0 = time.time()
+    phases = {}
     th = threading.Thread(target=design_check, args=(wd, tier, dres))
     th.start()
     try:
         cases, stats = generate(wd, tier, sd)
+        phases["generate"] = round(time.time() - t0, 1)
         items = [(c, i + 1, PALETTES[(i + sd) % len(PALETTES)]) for i, c in enumerate(cases)]
         results = C.isolated_map(drive_case, items, max(2, C.NCPU - 4), wd, "sampler", item_timeout=T["item_timeout"])
         traces = []
@@ -335,9 +339,13 @@ def run(prop, tier, replay=None):
             if r is None:
                 raise C.Machinery("no result for case %d" % tid)
             traces.append(_crashed(case, tid, pal, r) if "crash" in r else r)
+        phases["drive"] = round(time.time() - t0, 1)
         verdicts, cmd = validate(traces, wd, "main")
+        phases["validate"] = round(time.time() - t0, 1)
     finally:
         th.join()
+    phases["design_joined"] = round(time.time() - t0, 1)
+    rep.coverage["phase_end_s"] = phases
     if "error" in dres:
         raise dres["error"]
     rep.add_design(dres["design"])
